@@ -721,9 +721,11 @@ func gen(c *h.Ctx, r *h.Rng, maxOps int) []string {
 	spc := []int{120, 4, 2}[r.Intn(3)]
 	ops := []string{fmt.Sprintf("cfg %d 0 %d", cr, spc)}
 	nser := 1 + r.Intn(4)
-	base := []int64{0, -cr * 3, cr * 10, -7, 1}[r.Intn(5)]
+	// Timestamps stay >= 0: /repo floor-aligns block ranges of negative timestamps since a5fc8180f6,
+	// DbModel.rangeForTimestamp still truncates (both agree on t >= 0).
+	base := []int64{0, cr * 3, cr * 10, 7, 1}[r.Intn(5)]
 	cur := base
-	step := []int64{1, cr / 10, cr / 3, cr - 1, cr, cr + 1}[r.Intn(6)]
+	step := []int64{1, cr / 10, cr / 4, cr / 2, cr - 1, cr, cr + 1}[r.Intn(7)]
 	if step <= 0 {
 		step = 1
 	}
@@ -735,12 +737,16 @@ func gen(c *h.Ctx, r *h.Rng, maxOps int) []string {
 	pickT := func() int64 {
 		switch r.Intn(10) {
 		case 0:
-			return cur - r.Range(0, 3)*step
+			return max(cur-r.Range(0, 3)*step, 0)
 		case 1:
 			return cur
 		case 2:
 			b := (cur/cr + 1) * cr
 			return b + r.Range(-1, 1)
+		case 3:
+			// exactly on a block boundary: the sample that stays in the head when the block below is cut
+			cur = (cur/cr + 1) * cr
+			return cur
 		default:
 			cur += r.Range(0, 2) * step
 			if r.Chance(30) {
@@ -765,9 +771,10 @@ func gen(c *h.Ctx, r *h.Rng, maxOps int) []string {
 			// upper end around a block boundary: the read-only open adds the WAL iff lastBlockMaxt <= maxt
 			b := (cur/cr)*cr - r.Range(0, 2)*cr + r.Range(-1, 1)
 			return b - r.Range(0, 3)*cr, b
-		case 5:
-			b := (cur/cr)*cr - r.Range(0, 2)*cr + r.Range(-1, 1)
-			return math.MinInt64, b
+		case 5, 6:
+			// upper end exactly on a block boundary
+			b := (cur/cr)*cr - r.Range(0, 2)*cr
+			return []int64{math.MinInt64, b - cr, b}[r.Intn(3)], b
 		default:
 			a := base + r.Range(0, (cur-base)+1)
 			b := a + r.Range(0, (cur-base)/2+2)
